@@ -220,6 +220,10 @@ int glob_files(fstree_t *fs, const char *filename, size_t line_num,
 		}
 	}
 
+	/* a pack file in the current directory has no directory part */
+	if (basepath == NULL)
+		basepath = ".";
+
 	/* do the scan */
 	if (sep->count == 0) {
 		dir = dir_tree_iterator_create(basepath, &cfg);
